@@ -338,6 +338,9 @@ func pickI(r *hv.Rng, xs []int) int   { return pickInt(r, xs) }
 func canonKey(name string) string { return textproto.CanonicalMIMEHeaderKey(strings.ToLower(name)) }
 
 func genValue(r *hv.Rng) string {
+	if r.Chance(1, 60) { // around the 4096-byte chunks of readBounded (compressible)
+		return strings.Repeat("z", pickInt(r, []int{4095, 4096, 4097, 8191, 8192, 8193, 12288}))
+	}
 	switch r.Intn(8) {
 	case 0:
 		return ""
@@ -362,7 +365,14 @@ func genHdrs(r *hv.Rng, maxN int, mode int) (hv.Val, string) {
 	n := r.Intn(maxN + 1)
 	seen := map[string]bool{}
 	out := hv.L{}
-	for i := 0; i < n; i++ {
+	if r.Chance(1, 40) { // request path at the MaxHeaderUriSize limit (8192)
+		seen[":path"] = true
+		if n >= maxN && n > 0 {
+			n--
+		}
+		out = append(out, hv.L{hv.S(":path"), hv.L{hv.S("/" + strings.Repeat("p", pickInt(r, []int{8190, 8191, 8192, 9000})))}})
+	}
+	for i := 0; i < n && len(out) < maxN; i++ {
 		var name string
 		switch {
 		case r.Chance(1, 8):
@@ -544,7 +554,8 @@ func genFrame(r *hv.Rng, mode int) (hv.Val, string) {
 		h, c := genHdrs(r, 3, mode)
 		return hv.L{hv.I(8), hv.I(fl()), hv.I(sid()), h}, c
 	case 5:
-		return hv.L{hv.I(3), hv.I(sid()), hv.I(r.Range(1, 12))}, ""
+		st := r.Range(1, 12)
+		return hv.L{hv.I(3), hv.I(sid()), hv.I(st)}, ""
 	case 6:
 		l := hv.L{}
 		for i := r.Intn(4); i > 0; i-- {
@@ -795,5 +806,5 @@ func gen(r *hv.Rng, i int, tier string) (string, hv.Val) {
 }
 
 func main() {
-	hv.Main(&hv.Spec{Prop: "C39", Gen: gen, Impl: impl, NQuick: 6000, NThorough: 300000})
+	hv.Main(&hv.Spec{Prop: "C39", Gen: gen, Impl: impl, NQuick: 4000, NThorough: 300000})
 }
